@@ -49,7 +49,7 @@ CHECKS = {
          "DESIGN.md#c06"),
  "C16": ("E", "exploration",
          "bounded-exhaustive input enumeration against an independent big-integer model of BLS12-381 plus two-route (secret vs public) agreement",
-         "For 24 (quick) / 72 (thorough) keys incl. boundary scalars 0,1,2,3,r-1,r-2,(r+-1)/2, every unhardened path of length <=2/<=3 over 6 boundary indices, every ordered key pair, up to 16 hidden puzzle hashes, 6 messages and ~130k (quick) / ~360k (thorough) systematically perturbed 48/96-byte strings (every single-byte substitution of valid encodings, all flag combinations, non-reduced coordinates, non-canonical infinities, small-x on-curve non-subgroup points) plus 105k secret-key and mod-r strings: the real parsers accept exactly what the harness's own num-bigint model says (canonical encoding, on curve, r*P=O, infinity allowed), unchecked parsing accepts a superset and re-encodes identically, and both derivation routes agree with each other and with reference values.",
+         "For 40 (quick) / 72 (thorough) keys incl. boundary scalars 0,1,2,3,r-1,r-2,(r+-1)/2, every unhardened path of length <=2/<=3 over 6 boundary indices, every ordered key pair, up to 16 hidden puzzle hashes, 6 messages and ~137k (quick) / ~360k (thorough) systematically perturbed 48/96-byte strings (every single-byte substitution of valid encodings, all flag combinations, non-reduced coordinates, non-canonical infinities, small-x on-curve non-subgroup points) plus 105k secret-key and mod-r strings: the real parsers accept exactly what the harness's own num-bigint model says (canonical encoding, on curve, r*P=O, infinity allowed), unchecked parsing accepts a superset and re-encodes identically, and both derivation routes agree with each other and with reference values.",
          "trusts: harness reference arithmetic (Fp/Fp2, Jacobian double-and-add, ZCash compressed format) re-validated at start-up on the blspy vectors quoted in the repo's unit tests; sha2 crate; blst scalar multiplication only as a cross-check",
          "DESIGN.md#c16"),
  "C17": ("H", "model_checking",
